@@ -35,7 +35,7 @@ func checkC14() int {
 	c := NewCheck("C14")
 	pool := newPool()
 	r := rand.New(rand.NewSource(subSeed(c.Seed, 1414)))
-	nProg := c.pick(90, 1500)
+	nProg := c.pick(250, 1500)
 	c.Rule = "G1 programs (split / multi-name heavy, recursion, explicit provider names) and, for each, alpha-equivalent variants: benign renaming of every bound name, function, type and label; adversarial renaming drawing bound names, parameters and top-level names from a pool of three identifiers (coincidences across scopes, never capture: a binder avoids the names still owed a use and the provider alias); permutation of declarations and of case branches; oracle: the same typechecking verdict, and in async and sync mode (np too when contraction-free) the same printed multiset up to the label map and the same clean completion; non-trivial = distinct program with >= 1 adversarial variant that was run"
 	c.Assumptions = []string{"variants the reference typechecker R1 does not accept are transformation bugs: skipped and counted, never reported", "exact quiescence"}
 	cases := genCases(c, nProg, 14, func(i int) *gen.Opt {
